@@ -286,7 +286,7 @@ func init() {
 			ruleBagCount(w, r, v2, "v2", "Remove", "Add")
 			ruleWholeContainer(w, r, v2, "v2", "Add")
 			ruleWholeObject(w, r, v2, "v2", "Add")
-			ruleObjRecurse(w, r, v2, "v2")
+			r.Only(func(o Ob) bool { return !strings.Contains(o.Key, "no-key-passed-over") }, func(sub *Report) { ruleObjRecurse(w, sub, v2, "v2") })
 			// a common subsequence that is not the longest makes the walk restate equal elements (- x / + x)
 			r.Only(func(o Ob) bool {
 				return o.Rule == "R-LCSDEP" && !strings.Contains(o.Key, "kinds-only") && !strings.Contains(o.Key, "same-kind-recursion")
@@ -312,6 +312,7 @@ func init() {
 			rulePathFresh(w, r, v2, "v2")
 			rulePathTab(w, r, v2)
 			ruleJSONCodec(w, r, v2, "v2")
+			ruleRenderPayload(w, r, v2, "v2")
 			ruleScanErr(w, r, v2, "v2")
 			r.Floor("R-AUTOMATON", 50)
 			r.Floor("R-PATHTAB", 6)
@@ -433,6 +434,7 @@ func init() {
 			ruleDeleteVoid(w, r, pf)
 			ruleNotIgnored(w, r, pf, nil)
 			rulePatchResult(w, r, pf, nil)
+			ruleRawTypesTag(w, r, lib, "lib")
 			ruleScanErr(w, r, lib, "lib")
 			r.Floor("R-FWD(lib)", 60)
 			r.Floor("R-OPTFWD(lib)", 80)
